@@ -12,6 +12,61 @@ TB = ("Trusted: Lean 4.33 kernel (leanchecker re-check in the thorough tier), ax
       "(audited per theorem on every run), tools/extract.py, the sampling correspondence model<->code of each run. ")
 
 CLAIMED: dict[str, tuple[str, str, str, str]] = {
+    "C01": (
+        "Lean 4 theorems about the wheel record/naming model (permission function regenerated from source) + differential correspondence of the logged writer calls and the real .whl against the model, on generated projects x {wheel, editable} x {hook, builder API}",
+        "Machine-checked for all operation sequences: members = what the writers wrote; RECORD rows = (path, sha256=digest, size) of every "
+        "member in order plus itself hash-less, and a csv reader recovers exactly these rows; each member once under the decidable guard "
+        "DistinctTargets; the GENERATED `normalizeFilePermissions` yields 0644/0755 for every mode; file name / dist-info / data folder split "
+        "back to (distribution name, version, tag) for every name and every version text without '-'; relative forward-slash paths without "
+        "'..'; prepared dist-info files are the wheel's dist-info members. Every run re-reads each real wheel and recomputes all hashes, "
+        "modes, paths, name agreement via packaging.parse_wheel_filename, returned name vs directory, prepared vs built dist-info bytes.",
+        TB + "Partial: zip/deflate, sha256 (uninterpreted), csv dialect of CPython 3.12 and the file system are trusted; that the builder performs the modelled call sequence is sampled (logged in-process), not proved; ASCII names; D11 local-version labels with '-' excluded (known finding).",
+        "DESIGN.md §4 C01",
+    ),
+    "C06": (
+        "Lean 4 proof over the white-box marker model (hand recogniser of markers.lark, SingleMarker.__init__ rewriting, validate) against a formalised PEP 508 reference semantics + differential correspondence (model vs poetry-core raw tree and parse_marker; spec vs packaging)",
+        "Machine-checked: the and/or/parenthesis structure of `_compact_markers` (flattening and de-duplication included) commutes with lazy "
+        "`validate` for ALL syntax trees, errors and evaluation order included; leaf agreement with the reference for string variables ==/!= and "
+        "extra ==/!= for all strings; their composition for every marker text over those leaves; version variables at token level for "
+        "==,!=,<,<=,>,>= on final releases of any length; source-tie theorems (regexes, aliases, variable tables equal the extracted source "
+        "constants). Open, stated as `*_full_statement` and covered by the correspondence: in/not in lists, reversed operands, text->token for "
+        "version literals, ~=. Every run compares raw-tree structure/text/truth vectors model vs code, the simplified parse_marker vs the raw "
+        "model, the Lean spec vs packaging, and evaluates the property oracle (parse_marker(t).validate(E) vs reference) on the domain.",
+        TB + "lark LALR engine and Python re trusted (recognisers tied by the parse stream); reference = packaging 26.3 with the token reading of in/not in and set-valued extras stated in the property; two known findings (whitespace in string literals; two-component tokens in python_full_version lists).",
+        "DESIGN.md §4 C06",
+    ),
+    "C08": (
+        "Lean 4 theorems about description-level determinism (sorted iteration over a total order, metadata scrubbing, SOURCE_DATE_EPOCH semantics incl. the 1980 boundary) + rebuilds of perturbed trees compared bytes-vs-bytes and real-description-vs-model",
+        "Machine-checked for all trees, permutations and metadata: wheel and sdist descriptions are invariant under listing order, mtimes, owners, "
+        "group/other bits, root path; every zip time is gmtime(t), or the default iff t<315532800 / unset / non-integer; every tar and gzip mtime "
+        "is t or 0. Every run rebuilds generated projects under touch / chmod-in-class / re-creation elsewhere in another order / cwd+TZ+LC_ALL+"
+        "umask / left-over dist+build / all, across the six SOURCE_DATE_EPOCH values, plus PYTHONHASHSEED in fresh interpreters.",
+        TB + "Partial: byte encoders trusted as deterministic functions of the description; glob selection abstract (C09); rebuild_idempotent only under 'no rule selects the left-overs'; editable wheels contain the absolute path by design.",
+        "DESIGN.md §4 C08",
+    ),
+    "C14": (
+        "Lean 4 theorems about a white-box model of get_metadata_content / Metadata.from_package / all_classifiers / both table styles and about a reference RFC 822 parser + differential correspondence (model vs real METADATA/PKG-INFO; Spec.Rfc822 vs email.parser) + property oracle on generated pyprojects in both styles",
+        "Machine-checked proof that rendered metadata parses under the reference RFC 822 parser into exactly the declared headers and the "
+        "description verbatim whenever no single-line field holds a line break (any other characters, any licence text, any body); that the "
+        "indentation rule keeps every licence text inside its header; that a line break followed by `Name: value` otherwise injects exactly that "
+        "header (constructive counterexample); that dynamic classifiers are duplicate-free, sorted with the Python block in place, and consist "
+        "exactly of declared, range-derived and licence classifiers; and that the PEP 621 and legacy spellings configure equal Metadata. Header "
+        "order, METADATA_BASE, tables and AUTHOR_REGEX are regenerated from source every run; the model is compared with real wheel METADATA "
+        "and sdist PKG-INFO in both styles; Spec.Rfc822 is compared with email.parser on hostile messages.",
+        TB + "Partial: tomli, fastjsonschema, SPDX lookup, NFC normalisation, to_pep_508, canonicalize_name, format_python_constraint are inputs of the model; project_eq_legacy covers the commonly expressible fields; values compared modulo leading blanks (RFC 822 unfolding). Line-break validation was added to /repo (64d596d); two author-table findings are known.",
+        "DESIGN.md §4 C14",
+    ),
+    "C18": (
+        "Lean 4 proof over executable models of __eq__/__hash__ (hash modelled by its input tree, xor commutative) + correspondence of the == matrix, hash-input classes, dumps and reachability flags on pools of spellings + real-code oracle on all pairs and triples",
+        "Machine-checked for all values: equality is an equivalence and equal values have equal hash inputs for versions, string constraints and "
+        "markers; for version constraints under the no-degenerate-range guard (intersect proved never to build one); for specifications and "
+        "dependencies, transitivity under exact references and hash coherence; interchangeability (same allows/validate) for versions, ranges, "
+        "non-union constraints, string constraints and coherent markers. Every run compares the model's == / hash-input classes with real == / "
+        "hash() on pools with many spellings of one value and evaluates reflexivity, symmetry, transitivity, hash coherence, interchangeability "
+        "and re-parse equality on the real objects.",
+        TB + "Partial: allows-congruence through VersionUnion's excludes_single_version shortcut and coherence of every parsed marker are stated, checked per object at run time; text round trips taken from C03/C15 as hypotheses. Two VCS-reference classes are known findings (by-design prefix matching).",
+        "DESIGN.md §4 C18",
+    ),
     "C03": (
         "Lean 4 theorems about the version-key model + differential correspondence (model vs poetry-core vs packaging)",
         "Machine-checked proof (Lean 4 kernel) that the model's comparison key orders versions exactly like the PEP 440 "
